@@ -18,6 +18,8 @@ package main
 //	(*streamReaderWithConvert).toStream, (*childStreamReader).toStream: capacity of the stream, one
 //	iteration of the goroutine's loop, its deferred block (without the panic branch)
 //	                                     -> conv_fwd_cap / conv_fwd_body / conv_fwd_deferred, child_fwd_…
+//	MergeStreamReaders (skeleton recognised, the expressions in it translated)
+//	                                     -> merge_readers   (srs : list rd) (acc : macc) : option rd * macc
 //	(*stream).send: its select statements as data (send_selects); recv / closeSend / closeRecv: their statements
 //	(*StreamReader).Recv / Close: the switch over sr.typ as a table; (*StreamReader).Copy: the test
 //	under which the reader itself is returned
@@ -100,6 +102,8 @@ func c08Default(kind string) (string, error) {
 		return "None", nil
 	case "arrd":
 		return "(mkArrd [] 0)", nil
+	case "rd":
+		return "rd_nil", nil
 	}
 	return "", fmt.Errorf("no zero value for kind %s", kind)
 }
@@ -113,12 +117,13 @@ type c08Ctx struct {
 
 type c08Tr struct {
 	fn      string
-	recv    string            // receiver identifier ("" = none)
-	rkind   string            // its record kind
-	vars    map[string]string // variables in scope -> kind
-	ignored map[string]bool   // identifiers whose statements are dropped
-	srcCall string            // the call whose (chunk, err) result is the parameter src, e.g. "srw.sr.recvAny"
-	heap    bool              // peek: variables of kind opt are pointers to list elements; calling the source sets pulled
+	recv    string               // receiver identifier ("" = none)
+	rkind   string               // its record kind
+	vars    map[string]string    // variables in scope -> kind
+	ignored map[string]bool      // identifiers whose statements are dropped
+	srcCall string               // the call whose (chunk, err) result is the parameter src, e.g. "srw.sr.recvAny"
+	heap    bool                 // peek: variables of kind opt are pointers to list elements; calling the source sets pulled
+	alias   map[string][2]string // identifiers / selector chains that stand for a term of the vocabulary: text, kind
 	ind     int
 }
 
@@ -167,6 +172,9 @@ func (t *c08Tr) expr(e ast.Expr, want string) (string, string, error) {
 		case "ErrRecvAfterClosed":
 			return "ERecvAfterClosed", "err", nil
 		}
+		if a, ok := t.alias[x.Name]; ok {
+			return a[0], a[1], nil
+		}
 		if k, ok := t.vars[x.Name]; ok {
 			return x.Name, k, nil
 		}
@@ -180,6 +188,9 @@ func (t *c08Tr) expr(e ast.Expr, want string) (string, string, error) {
 		}
 		return x.Value, "nat", nil
 	case *ast.SelectorExpr:
+		if a, ok := t.alias[c08Sel(x)]; ok {
+			return a[0], a[1], nil
+		}
 		if f, ok := t.field(x); ok {
 			return "(" + f.get + " " + t.recv + ")", f.kind, nil
 		}
@@ -1165,6 +1176,299 @@ func (t *c08Tr) loop(s ast.Stmt) (string, error) {
 	return res, err
 }
 
+// ---------------------------------------------------------------- MergeStreamReaders
+
+// c08Merge recognises the skeleton of MergeStreamReaders (two early returns, the loop over the arguments
+// with its switch over sr.typ — one append per case —, the array-only result, the stream built from
+// the array arguments, the merged result) and translates the expressions in it.
+func c08Merge(f *ast.File) (string, error) {
+	fn := topFunc(f, "MergeStreamReaders")
+	if fn == nil || fn.Body == nil || strings.Join(c08Params(fn), ",") != "srs:[]*StreamReader[T]" {
+		return "", fmt.Errorf("func MergeStreamReaders(srs []*StreamReader[T]) not found")
+	}
+	t := &c08Tr{fn: "MergeStreamReaders", vars: map[string]string{"srs": "list:rd"}, ignored: map[string]bool{},
+		alias: map[string][2]string{"ss": {"(m_ss acc)", "list:nat"}, "arr": {"(m_arr acc)", "list:N"}}, ind: 1}
+	var sts []ast.Stmt
+	for _, st := range fn.Body.List {
+		if !t.droppable(st) {
+			sts = append(sts, st)
+		}
+	}
+	if len(sts) != 7 {
+		return "", t.errf("%d statements (7 expected)", len(sts))
+	}
+	earlyRet := func(st ast.Stmt) (cond string, ret ast.Expr, err error) {
+		is, ok := st.(*ast.IfStmt)
+		if !ok || is.Init != nil || is.Else != nil || len(is.Body.List) != 1 {
+			return "", nil, t.errf("early return shape")
+		}
+		rs, ok := is.Body.List[0].(*ast.ReturnStmt)
+		if !ok || len(rs.Results) != 1 {
+			return "", nil, t.errf("early return shape")
+		}
+		c, k, err := t.expr(is.Cond, "bool")
+		if err != nil || k != "bool" {
+			return "", nil, t.errf("early return condition %s", c08Sel(is.Cond))
+		}
+		return c, rs.Results[0], nil
+	}
+	c1, r1, err := earlyRet(sts[0])
+	if err != nil {
+		return "", err
+	}
+	if c08Sel(r1) != "nil" {
+		return "", t.errf("first early return is not nil")
+	}
+	c2, r2, err := earlyRet(sts[1])
+	if err != nil {
+		return "", err
+	}
+	e2, k2, err := t.expr(r2, "rd")
+	if err != nil || k2 != "rd" {
+		return "", t.errf("second early return %s", c08Sel(r2))
+	}
+	for i, want := range []string{"arr:[]T", "ss:[]*stream[T]"} {
+		ds, ok := sts[2+i].(*ast.DeclStmt)
+		if !ok {
+			return "", t.errf("declaration of the slices")
+		}
+		vs := ds.Decl.(*ast.GenDecl).Specs[0].(*ast.ValueSpec)
+		if len(vs.Names) != 1 || len(vs.Values) != 0 || vs.Names[0].Name+":"+c08Sel(vs.Type) != want {
+			return "", t.errf("declaration %s", vs.Names[0].Name)
+		}
+	}
+	// the loop
+	loop, ok := sts[4].(*ast.RangeStmt)
+	if !ok || c08Sel(loop.X) != "srs" || loop.Value == nil || c08Sel(loop.Key) != "_" || len(loop.Body.List) != 1 {
+		return "", t.errf("loop over srs")
+	}
+	sr := c08Sel(loop.Value)
+	sw, ok := loop.Body.List[0].(*ast.SwitchStmt)
+	if !ok || sw.Init != nil || c08Sel(sw.Tag) != sr+".typ" {
+		return "", t.errf("switch over %s.typ", sr)
+	}
+	t.vars[sr] = "rd"
+	t.alias[sr+".st"] = [2]string{"(rd_st " + sr + ")", "nat"}
+	t.alias[sr+".ar.arr"] = [2]string{"(rd_arr " + sr + ")", "list:N"}
+	t.alias[sr+".ar.index"] = [2]string{"(rd_index " + sr + ")", "nat"}
+	t.alias[sr+".msr.sts"] = [2]string{"(rd_sts " + sr + ")", "list:nat"}
+	tags := map[string]string{"readerTypeStream": "TStream", "readerTypeArray": "TArray", "readerTypeMultiStream": "TMulti",
+		"readerTypeWithConvert": "TConv", "readerTypeChild": "TChild"}
+	var arms []string
+	seen := map[string]bool{}
+	appendTo := func(st ast.Stmt) (string, error) { // X = append(X, ARG[...])
+		as, ok := st.(*ast.AssignStmt)
+		if !ok || as.Tok != token.ASSIGN || len(as.Lhs) != 1 || len(as.Rhs) != 1 {
+			return "", t.errf("statement in a case of the switch")
+		}
+		x := c08Sel(as.Lhs[0])
+		call, ok := as.Rhs[0].(*ast.CallExpr)
+		if !ok || c08Sel(call.Fun) != "append" || len(call.Args) != 2 || c08Sel(call.Args[0]) != x || (x != "ss" && x != "arr") {
+			return "", t.errf("statement %s = %s", x, c08Sel(as.Rhs[0]))
+		}
+		set, get, ek := "set_m_ss", "(m_ss acc)", "nat"
+		if x == "arr" {
+			set, get, ek = "set_m_arr", "(m_arr acc)", "N"
+		}
+		arg := call.Args[1]
+		pre := ""
+		var a, k string
+		if c, ok := arg.(*ast.CallExpr); ok && len(c.Args) == 0 && !call.Ellipsis.IsValid() {
+			switch c08Sel(c.Fun) {
+			case sr + ".srw.toStream":
+				pre, a, k = "let '(acc, s) := to_stream conv_fwd_cap acc "+sr+" in ", "s", "nat"
+			case sr + ".csr.toStream":
+				pre, a, k = "let '(acc, s) := to_stream child_fwd_cap acc "+sr+" in ", "s", "nat"
+			default:
+				return "", t.errf("call %s", c08Sel(c.Fun))
+			}
+		} else {
+			var err error
+			a, k, err = t.expr(arg, "")
+			if err != nil {
+				return "", err
+			}
+		}
+		if call.Ellipsis.IsValid() {
+			if k != "list:"+ek {
+				return "", t.errf("append of kind %s to %s", k, x)
+			}
+			return pre + set + " acc (" + get + " ++ " + a + ")", nil
+		}
+		if k != ek {
+			return "", t.errf("append of kind %s to %s", k, x)
+		}
+		return pre + set + " acc (" + get + " ++ [" + a + "])", nil
+	}
+	for _, cc := range sw.Body.List {
+		c := cc.(*ast.CaseClause)
+		if c.List == nil {
+			if len(c.Body) != 1 || !strings.HasPrefix(c08Sel(c.Body[0].(*ast.ExprStmt).X), "panic(") {
+				return "", t.errf("default case")
+			}
+			continue
+		}
+		if len(c.List) != 1 || len(c.Body) != 1 {
+			return "", t.errf("case shape")
+		}
+		tag, ok := tags[c08Sel(c.List[0])]
+		if !ok || seen[tag] {
+			return "", t.errf("case %s", c08Sel(c.List[0]))
+		}
+		seen[tag] = true
+		body, err := appendTo(c.Body[0])
+		if err != nil {
+			return "", err
+		}
+		arms = append(arms, "          | "+tag+" => "+body)
+	}
+	if len(seen) != len(tags) {
+		return "", t.errf("the switch has %d of the %d reader kinds", len(seen), len(tags))
+	}
+	delete(t.vars, sr)
+	for k := range t.alias {
+		if strings.HasPrefix(k, sr+".") {
+			delete(t.alias, k)
+		}
+	}
+	// the tail
+	tail, ok := sts[5].(*ast.IfStmt)
+	if !ok || tail.Init != nil || len(tail.Body.List) != 1 {
+		return "", t.errf("the test for the array-only result")
+	}
+	c3, k3, err := t.expr(tail.Cond, "bool")
+	if err != nil || k3 != "bool" {
+		return "", t.errf("condition %s", c08Sel(tail.Cond))
+	}
+	readerLit := func(e ast.Expr, typ string) (map[string]ast.Expr, error) {
+		u, ok := e.(*ast.UnaryExpr)
+		if !ok || u.Op != token.AND {
+			return nil, t.errf("result %s", c08Sel(e))
+		}
+		cl, ok := u.X.(*ast.CompositeLit)
+		if !ok || !strings.HasPrefix(c08Sel(cl.Type), "StreamReader[") {
+			return nil, t.errf("result %s", c08Sel(e))
+		}
+		m := map[string]ast.Expr{}
+		for _, el := range cl.Elts {
+			kv, ok := el.(*ast.KeyValueExpr)
+			if !ok {
+				return nil, t.errf("StreamReader literal without keys")
+			}
+			m[c08Sel(kv.Key)] = kv.Value
+		}
+		if len(m) != 2 || m["typ"] == nil || c08Sel(m["typ"]) != typ {
+			return nil, t.errf("StreamReader literal is not of typ %s", typ)
+		}
+		return m, nil
+	}
+	rs, ok := tail.Body.List[0].(*ast.ReturnStmt)
+	if !ok || len(rs.Results) != 1 {
+		return "", t.errf("array-only result")
+	}
+	am, err := readerLit(rs.Results[0], "readerTypeArray")
+	if err != nil {
+		return "", err
+	}
+	if am["ar"] == nil {
+		return "", t.errf("array-only result without ar")
+	}
+	ar, ark, err := t.expr(am["ar"], "arrd")
+	if err != nil || ark != "arrd" || !strings.HasPrefix(ar, "(mkArrd ") {
+		return "", t.errf("array-only result: %s", c08Sel(am["ar"]))
+	}
+	arrayRes := "(Some (mk_array_reader " + strings.TrimSuffix(strings.TrimPrefix(ar, "(mkArrd "), ")") + "), acc)"
+	els, ok := tail.Else.(*ast.IfStmt)
+	if !ok || els.Init != nil || els.Else != nil || len(els.Body.List) != 4 {
+		return "", t.errf("the block that builds a stream from the array arguments")
+	}
+	c4, k4, err := t.expr(els.Cond, "bool")
+	if err != nil || k4 != "bool" {
+		return "", t.errf("condition %s", c08Sel(els.Cond))
+	}
+	ns, ok := els.Body.List[0].(*ast.AssignStmt)
+	if !ok || ns.Tok != token.DEFINE || len(ns.Lhs) != 1 {
+		return "", t.errf("newStream statement")
+	}
+	sv := c08Sel(ns.Lhs[0])
+	nc, ok := ns.Rhs[0].(*ast.CallExpr)
+	if !ok || c08Sel(nc.Fun) != "newStream[T]" || len(nc.Args) != 1 {
+		return "", t.errf("newStream statement")
+	}
+	capE, capK, err := t.expr(nc.Args[0], "nat")
+	if err != nil || capK != "nat" {
+		return "", t.errf("capacity %s", c08Sel(nc.Args[0]))
+	}
+	fill, ok := els.Body.List[1].(*ast.RangeStmt)
+	if !ok || fill.Value != nil || fill.Tok != token.DEFINE || len(fill.Body.List) != 1 {
+		return "", t.errf("the loop that fills the stream")
+	}
+	over, overK, err := t.expr(fill.X, "")
+	if err != nil || !strings.HasPrefix(overK, "list:") {
+		return "", t.errf("the loop that fills the stream ranges over %s", c08Sel(fill.X))
+	}
+	iv := c08Sel(fill.Key)
+	t.vars[iv] = "nat"
+	t.vars[sv] = "nat"
+	se, ok := fill.Body.List[0].(*ast.ExprStmt)
+	if !ok {
+		return "", t.errf("the loop that fills the stream")
+	}
+	sc, ok := se.X.(*ast.CallExpr)
+	if !ok || c08Sel(sc.Fun) != sv+".send" || len(sc.Args) != 2 {
+		return "", t.errf("the loop that fills the stream calls %s", c08Sel(se.X))
+	}
+	ch, chK, err := t.expr(sc.Args[0], "N")
+	if err != nil || chK != "N" {
+		return "", t.errf("chunk %s", c08Sel(sc.Args[0]))
+	}
+	er, erK, err := t.expr(sc.Args[1], "err")
+	if err != nil || erK != "err" {
+		return "", t.errf("error %s", c08Sel(sc.Args[1]))
+	}
+	delete(t.vars, iv)
+	cs, ok := els.Body.List[2].(*ast.ExprStmt)
+	if !ok || c08Sel(cs.X) != sv+".closeSend()" {
+		return "", t.errf("closeSend statement")
+	}
+	srSaved := sr
+	sr = "" // appendTo outside the loop: no reader variable, plain values only
+	app, err := appendTo(els.Body.List[3])
+	if err != nil {
+		return "", err
+	}
+	fin, ok := sts[6].(*ast.ReturnStmt)
+	if !ok || len(fin.Results) != 1 {
+		return "", t.errf("final return")
+	}
+	mm, err := readerLit(fin.Results[0], "readerTypeMultiStream")
+	if err != nil {
+		return "", err
+	}
+	mc, ok := mm["msr"].(*ast.CallExpr)
+	if !ok || c08Sel(mc.Fun) != "newMultiStreamReader" || len(mc.Args) != 1 {
+		return "", t.errf("final return: %v", mm["msr"])
+	}
+	ma, mk, err := t.expr(mc.Args[0], "list:nat")
+	if err != nil || mk != "list:nat" {
+		return "", t.errf("final return: newMultiStreamReader(%s)", c08Sel(mc.Args[0]))
+	}
+	multiRes := "(Some (mk_multi_reader (msr_new " + ma + ")), acc)"
+	var b strings.Builder
+	b.WriteString("Definition merge_readers (srs : list rd) (acc : macc) : option rd * macc :=\n")
+	b.WriteString("  if " + c1 + " then\n    (None, acc)\n  else\n")
+	b.WriteString("    if " + c2 + " then\n      (Some " + e2 + ", acc)\n    else\n")
+	b.WriteString("      let acc := fold_left (fun acc " + srSaved + " =>\n          match rd_typ " + srSaved + " with\n" + strings.Join(arms, "\n") + "\n          end) srs acc in\n")
+	b.WriteString("      if " + c3 + " then\n        " + arrayRes + "\n      else\n")
+	b.WriteString("        if " + c4 + " then\n")
+	b.WriteString("          let '(acc, " + sv + ") := new_stream_in acc " + capE + " in\n")
+	b.WriteString("          let acc := fold_left (fun acc " + iv + " => stream_send_in acc " + sv + " (" + ch + ", " + er + ")) (seq 0 (List.length " + over + ")) acc in\n")
+	b.WriteString("          let acc := close_send_in acc " + sv + " in\n")
+	b.WriteString("          let acc := " + app + " in\n")
+	b.WriteString("          " + multiRes + "\n        else\n          " + multiRes + ".\n\n")
+	return b.String(), nil
+}
+
 // ---------------------------------------------------------------- the functions
 
 func c08Method(f *ast.File, recvType, name string) (*ast.FuncDecl, string) {
@@ -1510,6 +1814,14 @@ func c08ExtractStreamCode(repo string) (string, string, error) {
 		}
 		b.WriteString("Definition parent_peek (p : gparent) (idx : nat) (src : gopair) : gopair * gparent * bool :=\n" +
 			"  let " + rt + " := 0%N in\n  let " + re + " := ENil in\n  let pulled := false in\n" + strings.TrimRight(body, "\n") + ".\n\n")
+	}
+	// MergeStreamReaders
+	{
+		txt, err := c08Merge(f)
+		if err != nil {
+			return "", "", err
+		}
+		b.WriteString(txt)
 	}
 	// (*stream).send: its select statements as data
 	{
